@@ -41,6 +41,8 @@ type scenario struct {
 	legacyCache bool
 	// create: actor 0 creates the log first (base must be -1: empty stores).
 	create bool
+	// cacheFaults: reads of the deduplication cache may fail.
+	cacheFaults bool
 	// poolSize bounds the pool (0 = unbounded); submitter specs starting with "~"
 	// are low-priority submissions.
 	poolSize int
@@ -108,6 +110,9 @@ func (a *actor) boot(quiet bool) *instance {
 		if x.sc.cacheLoss && a.restarts > 1 {
 			rows = nil
 			x.w.mon.cacheEpoch++
+			x.w.mon.mu.Lock()
+			x.w.mon.cached = nil
+			x.w.mon.mu.Unlock()
 		}
 		in := x.w.newInstance(a.name, a.restarts, rows, quiet)
 		if x.sc.legacyCache {
@@ -426,6 +431,17 @@ func runExec(t *testing.T, sc *scenario, prefix []int) *verifmc.ExecResult {
 		w := newWorld(s, base, sc.opt)
 		w.mon.checkC04 = sc.checkC04
 		w.poolSize = sc.poolSize
+		w.logPoints = true
+		s.SQLReadFaults = sc.cacheFaults
+		if len(sc.actors) == 0 {
+			w.mon.trackCache = true
+			if sc.cacheFromBase {
+				w.mon.cached = map[string]int64{}
+				for i, e := range base.pending {
+					w.mon.cached[entryKey(e)] = base.entries[i].Index
+				}
+			}
+		}
 		x := &exec{sc: sc, w: w, s: s, acked: map[string]bool{}}
 		specs := append([]actorSpec{{name: "L", rounds: sc.rounds, create: sc.create}}, sc.actors...)
 		for i, sp := range specs {
